@@ -63,7 +63,8 @@ def check_step_wrapper(run, it):
 
 def check_leapfrog(run, it):
     run.function("mici.integrators.LeapfrogIntegrator._step")
-    run.replay_for(P + "LeapfrogIntegrator", _replay("leapfrog"))
+    if run.prop == "C06":
+        run.replay_for(P + "LeapfrogIntegrator", _replay("leapfrog"))
 
     def h(ctx):
         w = World(it, ctx)
@@ -87,7 +88,8 @@ def check_leapfrog(run, it):
 def check_composition(run, it, tier):
     run.function("mici.integrators.SymmetricCompositionIntegrator.__init__")
     run.function("mici.integrators.SymmetricCompositionIntegrator._step")
-    run.replay_for(P + "SymmetricCompositionIntegrator", _replay("composition"))
+    if run.prop == "C06":
+        run.replay_for(P + "SymmetricCompositionIntegrator", _replay("composition"))
     max_n = 8 if tier == "thorough" else 5
     roots = [[n, b] for n in range(max_n + 1) for b in range(2)]
 
@@ -179,7 +181,8 @@ def _substep_trace(it, cls, names, body):
 def check_implicit_leapfrog(run, it):
     run.function("mici.integrators.ImplicitLeapfrogIntegrator._step")
     tag = P + "ImplicitLeapfrogIntegrator._step"
-    run.replay_for(P + "ImplicitLeapfrogIntegrator", _replay("implicit_leapfrog"))
+    if run.prop == "C06":
+        run.replay_for(P + "ImplicitLeapfrogIntegrator", _replay("implicit_leapfrog"))
 
     def h(ctx):
         w = World(it, ctx)
